@@ -628,7 +628,10 @@ def mk_typed(field, j):
     ty = getattr(field, "_ty", None)
     if isinstance(j, dict) and "d" in j and isinstance(ty, type) and issubclass(ty, Structure):
         fs = ty.get_all_fields_by_name()
-        return ty(**{k: mk_typed(fs.get(k), v) for k, v in j["d"].items()})
+        try:
+            return ty(**{k: mk_typed(fs.get(k), v) for k, v in j["d"].items()})
+        except Exception:       # an invalid nested value: hand the plain dict to the operation, which rejects it itself
+            return mk(j)
     if isinstance(j, dict) and "l" in j and isinstance(getattr(field, "items", None), Field):
         return [mk_typed(field.items, x) for x in j["l"]]
     return mk(j)
@@ -1270,7 +1273,7 @@ def gen_cases(rng, tier, scale=1.0):
                                   {"op": "setattr", "field": fl[1], "value": v1}]})
     for sname in A_SHAPES:
         for _ in range(reps_a):
-            add("A", sname, 2, max_pre=max_pre, cap=120 if quick else 1000)
+            add("A", sname, 2, max_pre=max_pre, cap=120 if quick else 800)
         if sname in ("array_int", "shared_set", "map_int") or not quick:
             add("A", sname, 3, max_pre=2, cap=120 if quick else 600)
     for sname, v0, v1 in CANONICAL_E:
@@ -1282,7 +1285,7 @@ def gen_cases(rng, tier, scale=1.0):
     for sname in E_SHAPES:
         for _ in range(reps_e):
             flat = sname in ("anyof", "oneof", "allof", "notfield") or sname.startswith("shared_")
-            add("E", sname, 2, max_pre=max_pre, cap=100 if quick else 500, **({"yield": "sitelines"} if flat else {}))
+            add("E", sname, 2, max_pre=max_pre, cap=100 if quick else 400, **({"yield": "sitelines"} if flat else {}))
     # twin declarations: every thread on a DIFFERENT declaration (other field / other class) of the same spelling
     def add_twin(stream, sname, n, directed=None, **kw):
         decls = roster(sname)
@@ -1353,7 +1356,7 @@ def gen_cases(rng, tier, scale=1.0):
             add_ops("E", sname, ["deserialize", "deserialize", "construct"], max_pre=2, cap=200)
     for sname in (rng.sample(SER_SHAPES, 3) if quick else SER_SHAPES):
         add_ops("B", sname, [rng.choice(["construct", "deserialize", "serialize", "setattr"]) for _ in range(2)],
-                max_pre=max_pre, nsched=20 if quick else 60)
+                max_pre=max_pre, nsched=20 if quick else 50)
     # classes with mappers from a COLD start (fresh classes for every schedule): first (de)serializations race
     cold_e = rng.sample(COLD_SHAPES, 2) if quick else COLD_SHAPES
     for sname in COLD_SHAPES:
@@ -1382,5 +1385,5 @@ def gen_cases(rng, tier, scale=1.0):
     reps_b = max(1, int((1 if quick else 4) * scale))
     for sname in (rng.sample(ALL_SHAPES, 26) if quick else ALL_SHAPES):
         for _ in range(reps_b):
-            add("B", sname, 3 if rng.random() < 0.2 else 2, max_pre=max_pre, nsched=20 if quick else 60)
+            add("B", sname, 3 if rng.random() < 0.2 else 2, max_pre=max_pre, nsched=20 if quick else 50)
     return cases
